@@ -173,14 +173,19 @@ def evaluate(ck, recs):
         for i, v in zip(heavy, rh):
             out[i] = v
         return out
+    # deletion target = the consensus store observed before the NEAREST PRECEDING add of that block in the same scenario
     snaps = {}
     pre_add = {}
-    for r in steps:
+    fallbacks = 0
+    for r in sorted(steps, key=lambda x: (x["scenario"], x["t"])):
         if r["op"] in ("add", "restore", "genesis") and r.get("impl_ok"):
             pre_add[(r["scenario"], r["id"])] = as_map(r["before"])
-    for r in steps:
-        if r["op"] in ("del", "del_refused"):
-            snaps[id(r)] = {r["id"]: pre_add.get((r["scenario"], r["id"]))} if (r["scenario"], r["id"]) in pre_add else None
+        elif r["op"] in ("del", "del_refused", "del_finalized"):
+            tgt = pre_add.get((r["scenario"], r["id"]))
+            if tgt is None and r["op"] == "del" and r.get("impl_ok"):
+                fallbacks += 1
+            snaps[id(r)] = {r["id"]: tgt} if tgt is not None else None
+    ck.extra["delete_targets_taken_from_after_dump"] = fallbacks
     rs = ev(steps, "step_case", "check_step", lambda r: step_term(r, snaps.get(id(r))), "step")
     rc = ev(crashes, "crash_case", "check_crash", crash_term, "crash")
     for rr, res, kind in ((steps, rs, "step"), (crashes, rc, "crash")):
@@ -192,6 +197,17 @@ def evaluate(ck, recs):
                            len(r["after"]) // 8, r.get("fin_jump", 0) >= 2, r.get("payload_bytes", 0) >> 20))
             if any(e["c"] == "unknown" for e in r["after"]):
                 ck.fail_case("c13:unknown-key", "database holds a key outside the known prefixes: %s" % r["after"], r)
+            if kind == "crash" and r.get("reopen_ok") and r.get("recovered") is not None:
+                # the node restarted on the tip whose consensus state matches it: its tip = the BFT tip mark of the recovered database
+                tm = [int(e["v"]) for e in r["recovered"] if e["c"] == "tipmark"]
+                idx = [int(e["a"]) for e in r["recovered"] if e["c"] == "idx"]
+                want = max(idx) if idx else 0
+                if r["tip_height"] != want or (tm and tm[0] != want):
+                    ck.failures.append(dict(kind="history", key="c13:crash:%s:tip" % r["op"], spec_violated=True, case={
+                        k: v for k, v in r.items() if k not in ("before", "after", "recovered")}, observed=r["tip_height"],
+                        what="after the crash in step %d (%s) the node restarted on tip %s but the recovered height index ends at %s and "
+                             "the consensus store is at %s" % (r["t"], r["op"], r["tip_height"], want, tm),
+                        theorem_or_correspondence="restart tip vs recovered database"))
             if code == 0:
                 continue
             spec_bad = code >= 2
@@ -260,6 +276,7 @@ def run(ck):
     ck.cov["exhaustive"] = bool(cover) and complete and stepped <= set(cover)
     ck.extra["torn_tail_crash_points"] = sum(1 for r in cr if r.get("torn"))
     ck.extra["cleartemp_steps"] = sum(1 for r in st if r["op"] == "cleartemp")
+    ck.extra["steps_by_kind"] = {k: sum(1 for r in st if r["op"] == k) for k in sorted(set(r["op"] for r in st))}
     ck.extra["exhaustive_domain"] = "all file-sync boundaries inside every step of the generated scenarios"
     ck.extra["crash_points"] = len(cr)
     ck.extra["steps"] = len(st)
@@ -272,6 +289,16 @@ def run(ck):
     for name, ok in (("a block whose batch exceeds 1 MiB", ck.extra["max_payload_bytes"] > (1 << 20)),
                      ("a finality jump of at least 2 heights", ck.extra["max_finality_jump"] >= 2),
                      ("a restore from the temp table (removeTemp)", ck.extra["restore_steps"] > 0),
+                     ("every step kind of the scripted scenario (present by construction): deletion without temp, deletion with temp, "
+                      "ClearTempBlocks with and without entries, restore, deletion refused by an ABI failure, delete request for a "
+                      "finalized block, an invalid block, a torn-tail crash point",
+                      all([any(r["op"] == "del" and not r["save"] and r["impl_ok"] for r in st),
+                           any(r["op"] == "del" and r["save"] and r["impl_ok"] for r in st),
+                           any(r["op"] == "cleartemp" and r["commits"] == 1 for r in st),
+                           any(r["op"] == "cleartemp" and r["commits"] == 0 for r in st),
+                           any(r["op"] == "restore" and r["impl_ok"] for r in st),
+                           any(r["op"] == "del_refused" for r in st), any(r["op"] == "del_finalized" for r in st),
+                           any(r["op"] == "add_invalid" for r in st), any(r.get("torn") for r in cr)])),
                      ("the genesis step (first start on an empty data directory) with its crash points",
                       any(r["op"] == "genesis" for r in st) and any(r["op"] == "genesis" for r in cr)),
                      ("a block that ends a finality stall and prunes more than 1000 event lists at once",
